@@ -259,6 +259,8 @@ class ExprEval:
             out = Small(v.shape)
             out.data = [-as_int(x) for x in v.data]
             return out
+        if isinstance(n.op, ast.USub) and isinstance(v, Arr1):
+            return Arr1(lambda i, v=v: -as_int(v.get(i)), v.length, parent=None)
         if isinstance(n.op, ast.USub):
             return -as_int(v)
         if isinstance(n.op, ast.Not):
@@ -563,8 +565,8 @@ class ExprEval:
             return as_bool(self.ev(n.args[0])) == as_bool(self.ev(n.args[1]))
         if name == "arange" and isinstance(f, ast.Attribute) and n.args and self.engine is not None:
             return Arr1(lambda i: i, as_int(self.ev(n.args[0])))
-        if name == "where" and isinstance(f, ast.Attribute) and len(n.args) == 1 and self.engine is not None:
-            # np.where(b) of a 1-d array: (W,) with W the increasing list of the positions where b is non-zero
+        if name in ("where", "flatnonzero") and isinstance(f, ast.Attribute) and len(n.args) == 1 and self.engine is not None:
+            # np.where(b) of a 1-d array: (W,) with W the increasing list of the positions where b is non-zero; np.flatnonzero(b) is W itself
             b = self.ev(n.args[0])
             if not isinstance(b, Arr1):
                 raise Unsupported("np.where of this value")
@@ -575,7 +577,8 @@ class ExprEval:
                 z3.ForAll([qi], z3.Implies(z3.And(0 <= qi, qi < L), z3.And(0 <= z3.Select(w, qi), z3.Select(w, qi) < b.length, nz(z3.Select(w, qi))))),
                 z3.ForAll([qi, qj], z3.Implies(z3.And(0 <= qi, qi < qj, qj < L), z3.Select(w, qi) < z3.Select(w, qj))),
                 z3.ForAll([qe], z3.Implies(z3.And(0 <= qe, qe < b.length, nz(qe)), z3.Exists([qw], z3.And(0 <= qw, qw < L, z3.Select(w, qw) == qe))))]
-            return (Arr1(lambda i, w=w: z3.Select(w, i), L),)
+            W = Arr1(lambda i, w=w: z3.Select(w, i), L)
+            return (W,) if name == "where" else W
         if name in ("max", "min") and len(n.args) == 1 and self.engine is not None:
             v = self.ev(n.args[0])
             if isinstance(v, Small) and len(v.shape) == 1:
@@ -607,7 +610,7 @@ class ExprEval:
                 out = Small((k.as_long(),))
                 out.data = [z3.IntVal(1)] * k.as_long()
                 return out
-            raise Unsupported("np.ones of symbolic length")
+            return Arr1(lambda i: z3.IntVal(1), k)
         if name in ("min", "max") and len(n.args) == 2:
             a, b = as_int(self.ev(n.args[0])), as_int(self.ev(n.args[1]))
             return z3.If(a <= b, a, b) if name == "min" else z3.If(a >= b, a, b)
@@ -984,6 +987,23 @@ class Engine:
                     z3.ForAll([q], z3.Implies(z3.And(lo <= q, q < hi), z3.Select(a2, q) == as_int(val.get(q - lo)))),
                     z3.ForAll([w], z3.Implies(z3.And(0 <= w, w < val.length), z3.Select(a2, lo + w) == as_int(val.get(w)))),
                     z3.ForAll([q], z3.Implies(z3.Or(q < lo, q >= hi), z3.Select(a2, q) == as_int(base.get(q))))])
+                env[target.value.id] = Arr1(lambda t, a2=a2: z3.Select(a2, t), base.length)
+                return env
+            if isinstance(base, Arr1) and len(idx) == 1 and not isinstance(idx[0], ast.Slice) and isinstance(val, Arr1):
+                ix = ee.ev(idx[0])
+                if not isinstance(ix, Arr1):
+                    raise Unsupported("array-valued store with a scalar index")
+                # a[ix] = b with index array ix: numpy requires equal lengths and indices in range (obligations); for repeated indices the last store wins, which
+                # the characterisation below does not model -> distinctness of the indices is an obligation as well
+                qi, qj, q = fresh("i"), fresh("j"), fresh("q")
+                self.emit("fancy-store-length[%s]" % target.value.id, path, ix.length == val.length, line)
+                self.emit("fancy-store-bounds[%s]" % target.value.id, path, z3.ForAll([qi], z3.Implies(z3.And(0 <= qi, qi < ix.length), z3.And(0 <= as_int(ix.get(qi)), as_int(ix.get(qi)) < base.length))), line)
+                self.emit("fancy-store-distinct[%s]" % target.value.id, path,
+                          z3.ForAll([qi, qj], z3.Implies(z3.And(0 <= qi, qi < qj, qj < ix.length), as_int(ix.get(qi)) != as_int(ix.get(qj)))), line)
+                a2 = fresh(target.value.id, A1)
+                path.extend([
+                    z3.ForAll([qi], z3.Implies(z3.And(0 <= qi, qi < ix.length), z3.Select(a2, as_int(ix.get(qi))) == as_int(val.get(qi)))),
+                    z3.ForAll([q], z3.Or(z3.Select(a2, q) == as_int(base.get(q)), z3.Exists([qj], z3.And(0 <= qj, qj < ix.length, as_int(ix.get(qj)) == q))))])
                 env[target.value.id] = Arr1(lambda t, a2=a2: z3.Select(a2, t), base.length)
                 return env
             if isinstance(base, Arr1):
